@@ -28,16 +28,17 @@ RUNS = {"quick": 2400, "thorough": 60000}
 BUDGET = {"quick": 75, "thorough": 1500}
 CHUNK = {"quick": 20, "thorough": 100}
 MOVES = ["add_emitter_one_qubit_op", "add_emitter_cnot", "replace_photon_one_qubit_op", "add_photon_one_qubit_op",
-         "remove_op", "remove_op_node", "add_measurement_cnot_and_reset", "select"]
+         "remove_op", "remove_op_node", "add_measurement_cnot_and_reset", "select", "rejected_replace"]
 RULE = (
     "initial circuit from EvolutionarySolver.initialization (seam-chosen emission/measurement assignment, 1-3 emitters, "
     "1-5 photons), from TimeReversedSolver on a seeded target (n<=6), or an entry of an AlternateTargetSolver result; "
     "then a history of 5-80 moves over {add_emitter_one_qubit_op, add_emitter_cnot, replace_photon_one_qubit_op, "
-    "add_photon_one_qubit_op, remove_op (random / explicit node incl. Fixed ones), add_measurement_cnot_and_reset} "
+    "add_photon_one_qubit_op, remove_op (random / explicit node incl. Fixed ones), add_measurement_cnot_and_reset, "
+    "tournament selection, fault rejected_edit = an impossible replace_op that is refused} (the TimeReversedSolver object is used for 1-3 solve() calls, every result judged) "
     "(replace_emitter_one_qubit_op is reached through the fallback of add_emitter_one_qubit_op); all RNG draws owned, rng_extreme injected at a per-run rate. Distinct = distinct "
     "event-log digest; non-trivial = >=2 emitters, >=1 two-qubit insertion that happened and >=1 removal that happened."
 )
-PROBES = ["two_qubit_inserted", "removal_happened", "fixed_removal_refused", "no_position_for_two_qubit",
+PROBES = ["impossible_replace_refused", "deterministic_solver_object_reused", "two_qubit_inserted", "removal_happened", "fixed_removal_refused", "no_position_for_two_qubit",
           "init_from_time_reversed", "init_from_initialization", "init_from_alternate", "measurement_inserted",
           "fallback_replace_used", "selection_done", "alternate_source_with_noise_model"]
 REAL = ["graphiq.solvers.evolutionary_solver.EvolutionarySolver (all mutation moves, initialization, assignments)",
@@ -69,6 +70,9 @@ def gen_case(run_seed, tier):
     if sum(w.values()) == 0:
         w["add_emitter_one_qubit_op"] = 1.0
     w["select"] = 0.35 if w["select"] else 0.0  # tournament selection between moves (population of copies)
+    w["rejected_replace"] = 0.3 if sz.random() < 0.4 else 0.0  # fault: an impossible replace_op is refused, the moves go on
+    if src == "trs":
+        case["trs_solves"] = sz.choice([1, 1, 2, 3])  # the deterministic solver object used again: every result is judged
     case["alt_noise"] = src == "alt" and sz.random() < 0.4
     hist = []
     for _ in range(length):
@@ -184,6 +188,12 @@ def make_initial(ctx, case, rng_lib):
         trs = TimeReversedSolver(target=tg, metric=Infidelity(tg), compiler=comp)
         trs.solve()
         circ = trs.result[1]
+        for _ in range(case.get("trs_solves", 1) - 1):
+            if photon_structure(circ):
+                return circ, None  # judged by the caller
+            trs.solve()
+            circ = trs.result[1]
+            ctx.probe("deterministic_solver_object_reused")
         ctx.probe("init_from_time_reversed")
     else:
         from graphiq.solvers.alternate_target_solver import AlternateTargetSolver
@@ -259,11 +269,36 @@ def run_case(case):
                 ctx.log(step, mv, arg, len(pop))
                 continue
             circ = pop[arg % len(pop)]
+            if mv == "rejected_replace":
+                # fault: a replacement on other registers than the node's is asked for and refused; the same circuit is
+                # then mutated further (an accepted impossible replacement is not this property's subject: the run ends)
+                nodes = sorted(n for n in circ.dag.nodes if isinstance(n, int))
+                if not nodes:
+                    continue
+                node = nodes[arg % len(nodes)]
+                old_op = circ.dag.nodes[node]["op"]
+                other_e = (old_op.q_registers[0] + 1) % max(2, circ.n_emitters + 1)
+                wrong = ops.Hadamard(register=other_e, reg_type="e") if len(old_op.q_registers) == 1 and old_op.q_registers_type[0] == "e" \
+                    else ops.CNOT(control=0, control_type="e", target=circ.n_emitters, target_type="e")
+                ctx.fault("rejected_edit")
+                try:
+                    circ.replace_op(node, wrong)
+                except core.HarnessError:
+                    raise
+                except Exception as e:
+                    ctx.probe("impossible_replace_refused")
+                    ctx.log(step, mv, arg, node, type(e).__name__)
+                else:
+                    ctx.probe("impossible_replace_accepted")
+                    ctx.log(step, mv, arg, node, "accepted")
+                    break
             n_before = circ.dag.number_of_nodes()
             two_before = sum(1 for n in circ.dag.nodes if isinstance(circ.dag.nodes[n]["op"], (ops.ControlledPairOperationBase, ops.ClassicalControlledPairOperationBase)))
             nd0 = len(rng.draws)
             try:
-                if mv == "remove_op_node":
+                if mv == "rejected_replace":
+                    pass  # the refused call above was the whole step; the invariants below judge what it left behind
+                elif mv == "remove_op_node":
                     nodes = sorted(n for n in circ.dag.nodes if isinstance(n, int))
                     if not nodes:
                         continue
